@@ -30,6 +30,11 @@ type tcase struct {
 	Stream  string
 	// p: the `$regime` of the party that carries the identity ("" = absent)
 	PartyRegime string `json:",omitempty"`
+	// i (relations.go): what the same object says after the edit, what it went through before, how it was edited
+	Country2 string `json:",omitempty"`
+	Code2    string `json:",omitempty"`
+	Op       string `json:",omitempty"`
+	How      string `json:",omitempty"`
 }
 
 // ---- the real code ---------------------------------------------------------
@@ -143,7 +148,9 @@ func Run(c *core.Ctx) int {
 	for _, rg := range rgs {
 		cases = append(cases, boundaryCases(c, r, rg, patterns[rg.CC], degenerate[rg.CC])...)
 		cases = append(cases, entryCases(c, r, rg, valids[rg.CC], degenerate[rg.CC])...)
+		cases = append(cases, completedCases(c, rg, valids[rg.CC])...)
 	}
+	cases = append(cases, inplaceCases(c, r, rgs, valids)...)
 	return runCases(c, byCC, cases)
 }
 
@@ -307,6 +314,14 @@ func runCases(c *core.Ctx, byCC map[string]*regime, cases []tcase) int {
 	mxNonAlnum := 0
 	for i, t := range cases {
 		rg := byCC[t.CC]
+		if t.Kind == "c" && utf8.ValidString(t.Code) {
+			judgeCompleted(c, t)
+			continue
+		}
+		if t.Kind == "i" && utf8.ValidString(t.Code) && utf8.ValidString(t.Code2) {
+			judgeInPlace(c, t)
+			continue
+		}
 		if t.Kind == "p" && utf8.ValidString(t.Code) {
 			judgeParty(c, t, pr[i])
 			continue
